@@ -190,6 +190,68 @@ func genAli(t *rapid.T, allowMixed bool, minRows int) (a gen.Ali, mixed bool) {
 	return a, mixed
 }
 
+// columnCase returns the alignment a with, column by column, a drawn subset of the letters written in
+// lower case: inside one column a letter occurs in ONE case only, across columns the case of a letter
+// differs. On such input the case-folded and the byte-wise reading of every per-column statistic
+// (entropy, variable and informative sites, alleles, PSSM counts) give the same answer, so the naive
+// per-column definition judges them whatever the function's stand on case is. N and X (the wildcard
+// of one alphabet, the open letter of the other) stay in upper case: the doc comments name them in
+// upper case only.
+func columnCase(t *rapid.T, a gen.Ali) gen.Ali {
+	n, l := len(a.Rows), a.Length()
+	rows := make([][]byte, n)
+	for i := range rows {
+		rows[i] = []byte(a.Rows[i].Seq)
+	}
+	for j := 0; j < l; j++ {
+		lower := map[byte]bool{}
+		switch rapid.IntRange(0, 3).Draw(t, "colcase") {
+		case 0: // upper case column
+			continue
+		case 1: // lower case column
+			for i := 0; i < n; i++ {
+				lower[rows[i][j]] = true
+			}
+		default: // letter by letter, in order of first occurrence
+			for i := 0; i < n; i++ {
+				if _, seen := lower[rows[i][j]]; !seen {
+					lower[rows[i][j]] = rapid.Bool().Draw(t, "lowerletter")
+				}
+			}
+		}
+		for i := 0; i < n; i++ {
+			if ch := rows[i][j]; lower[ch] && ch >= 'A' && ch <= 'Z' && ch != 'N' && ch != 'X' {
+				rows[i][j] = ch + 32
+			}
+		}
+	}
+	out := gen.Ali{Alphabet: a.Alphabet}
+	for i, r := range a.Rows {
+		out.Rows = append(out.Rows, gen.Row{Name: r.Name, Seq: string(rows[i])})
+	}
+	return out
+}
+
+// columnCaseOK: every letter occurs in one case only inside each column, and n / x do not occur: the
+// domain on which the site measures are judged on input that is not all upper case
+func columnCaseOK(a gen.Ali) bool {
+	for j := 0; j < a.Length(); j++ {
+		seen := map[byte]bool{}
+		for _, ch := range col(a, j) {
+			if ch == 'n' || ch == 'x' {
+				return false
+			}
+			seen[ch] = true
+		}
+		for ch := range seen {
+			if ch >= 'a' && ch <= 'z' && seen[ch-32] {
+				return false
+			}
+		}
+	}
+	return true
+}
+
 func isMixed(a gen.Ali) bool {
 	for _, r := range a.Rows {
 		if strings.ToUpper(r.Seq) != r.Seq {
@@ -580,7 +642,7 @@ func TestMajority(t *testing.T) {
 	}, checkMajority)
 }
 
-// ---- 3. site measures (upper-case input) --------------------------------------------------------------
+// ---- 3. site measures (upper-case input, and input whose letters keep one case inside each column) ----
 
 type siteCase struct {
 	Ali    gen.Ali   `json:"ali"`
@@ -826,6 +888,9 @@ func siteMeasuresOn(al align.Alignment, a gen.Ali, c siteCase, o pbt.Outcome) (p
 	}
 	o.NonTrivial = multi
 	o.Class("alphabet=%s", a.Alphabet)
+	if isMixed(a) {
+		o.Class("case-differs-between-columns")
+	}
 	if anyNaN {
 		o.Class("entropy:NaN-nothing-counted")
 	}
@@ -842,6 +907,9 @@ func TestSiteMeasures(t *testing.T) {
 			c = siteCase{Ali: gen.Ali{Alphabet: f.Alphabet}, F: f}
 		} else {
 			a, _ := genAli(t, false, 1)
+			if rapid.IntRange(0, 2).Draw(t, "columncase") == 0 {
+				a = columnCase(t, a)
+			}
 			c = siteCase{Ali: a, Plan: maybePlan(t, a)}
 		}
 		c.Pseudo = rapid.SampledFrom([]float64{0, 0, 0.5, 1, 2.25}).Draw(t, "pseudo")
